@@ -19,7 +19,7 @@ ASSUMPTIONS = ["required scope alternatives each name at least one scope word (t
 
 U = ["a", "b", "c", "d"]
 HEADERS = [None, "", "Bearer", "Bearer ", " Bearer {t}", "Bearer {t}", "bearer {t}", "BEARER {t}", "BeArEr  {t}", "Bearer\t{t}",
-           "Bearer {t} ", "Bearer {t} x", "Basic {t}", "MAC {t}", "Token {t}", "{t}", "Bearer{t}", "bearer\n{t}"]
+           "Bearer {t} ", "Bearer {t} x", "Bearer refresh-of-tok", "Basic {t}", "MAC {t}", "Token {t}", "{t}", "Bearer{t}", "bearer\n{t}"]
 # "expired-frac": the lifetime ended a quarter second ago (whole-second issued_at, fractional clock); "live-frac": it ends in a quarter second; "live-boundary": it ends now
 STATES = ["live", "expired", "revoked", "unknown", "live-noexp", "expired-frac", "live-frac", "live-boundary"]
 FRAC = {"expired-frac": 3600.25, "live-frac": 3599.75, "live-boundary": 3600}
@@ -306,7 +306,8 @@ def impl_bearer(c):
         rp.register_token_validator(ms.MemBearerValidator(store))
         st = c["state"]
         if st != "unknown":
-            t = Token(_store=store, access_token="tok", refresh_token=None, client_id="c1", user_id=1, scope=c["tscope"],
+            # (the row also holds the grant's refresh token: that string is not an access token)
+            t = Token(_store=store, access_token="tok", refresh_token="refresh-of-tok", client_id="c1", user_id=1, scope=c["tscope"],
                       expires_in=0 if st == "live-noexp" else 3600, issued_at=1_000_000 if st in FRAC else CLOCK() - (7200 if st == "expired" else 10), token_type="Bearer")
             if st in FRAC:
                 CLOCK.now = 1_000_000 + FRAC[st]
